@@ -390,6 +390,13 @@ def run(ctx, rep):
     c02.pairing(R, r2)
     for o in r2.obligations:
         rep.ob("R5", o["instance"], o["ok"], o["detail"], o["site"], key="R5:" + o["instance"])
+    # capital returns and accumulations move exactly their own net amount of cost (shared with C11-R1/R2): an event that
+    # applies another amount than the one it checked and reported loses or invents allowable expenditure (seeded change C03-s4)
+    import rules.c11 as c11
+    r3 = Report("tmp")
+    c11.adjustments(R, r3)
+    for o in r3.obligations:
+        rep.ob("R6", o["instance"], o["ok"], o["detail"], o["site"], key="R6:" + o["instance"])
     pair_costs(R, rep)
     same_day_weights(R, rep)
     sibling_unit_cost(R, rep)
